@@ -72,7 +72,7 @@ class Registry:
         from . import theory as T
         from contracts import sd_inv
         from contracts import deps
-        return [T.AX_EVALON_RANGE, T.AX_CARD] + T.AX_UNION + T.AX_MEM + T.AX_STACK + sd_inv.AX_SIG + sd_inv.AX_FOLD + sd_inv.AX_CACHE + deps.AX_LSET + list(getattr(c, "axioms", []) or [])
+        return [T.AX_EVALON_RANGE, T.AX_CARD] + T.AX_UNION + T.AX_MEM + T.AX_STACK + sd_inv.AX_SIG + sd_inv.AX_FOLD + sd_inv.AX_CACHE + deps.AX_LSET + deps.AX_BRIDGE + list(getattr(c, "axioms", []) or [])
 
     # ---- lookups used by the engine
     def lookup_function(self, name):
